@@ -240,6 +240,14 @@ def witness_nested_hier():
     return obs is not None and obs["raised"] == [False] and obs["cur"] == 0 and obs["active"] != chain_active, obs
 
 
+def witness_nested_from_leave():
+    """the leave handler of the state that is being left requests another transition that is allowed from that state
+    (Props/C18.v: leave_machine)"""
+    obs = observe([None, None, None], [("ab", [0], 1), ("ac", [0], 2)], {("leave", 0): ["ac"]}, 0, ["ab"], one_shot=[("leave", 0)])
+    leaves = 0 if obs is None else sum(1 for e in obs["log"] if e == ("leave", 0))
+    return obs is not None and obs["raised"] == [False] and obs["cur"] == 1 and obs["active"] == [False, True, True] and leaves == 2, obs
+
+
 def witness_concurrent():
     """two threads request transitions allowed from the same state; the first is parked inside its leave
     callback (a public extension point) until the second has passed the source check"""
@@ -282,6 +290,7 @@ def witness_concurrent():
 
 KNOWN = {
     "C18-nested-hierarchical": (witness_nested_hier, "in a hierarchical machine a transition requested from an enter handler out of the parent leaves that parent active although it is neither current nor an ancestor (machine: 0, 1>2; go 0->2 whose enter handler requests back 2->0)"),
+    "C18-nested-from-leave": (witness_nested_from_leave, "a transition requested from the LEAVE handler of the state being left is performed inside the outer transition, which then goes on: leave fires twice, two states report active (flat machine A, B, C; ab: A->B, ac: A->C; A's leave handler requests ac; request ab)"),
     "C18-concurrent": (witness_concurrent, "_perform_transition is not atomic: two threads both allowed from state 0 run to completion, state 0 fires leave twice / two states report active"),
 }
 
